@@ -78,6 +78,11 @@ class TObj(T):
     def __repr__(self): return f"Obj<{self.cls}>"
 
 
+class TDict(T):
+    """a fresh, empty-or-unknown dict (ctx): modelled as an empty dict whose previous content is irrelevant"""
+    def __repr__(self): return "dict"
+
+
 class TAbs(T):
     """abstract library/domain object: factory(name, idx) -> VAbs"""
     def __init__(self, factory, label): self.factory = factory; self.label = label
